@@ -56,13 +56,15 @@ fn max_one_either_side(
     token_index: usize,
     formatted_tokens: &mut FormattedTokens<'_>,
 ) -> (Option<u16>, Option<u16>) {
+    // A line break separates two tokens just like a space does
+    let separation = |data: &FormattingData| data.spaces_before.max(data.newlines_before).min(1);
     (
         formatted_tokens
             .get_formatting_data(token_index)
-            .map(|data| data.spaces_before.min(1)),
+            .map(separation),
         formatted_tokens
             .get_formatting_data(token_index + 1)
-            .map(|data| data.spaces_before.min(1)),
+            .map(separation),
     )
 }
 
